@@ -91,7 +91,7 @@ Definition parse_block (o : opts) (rt : N) (hs : fields) (content : bytes) (fnd 
   | Some bd, Some pd =>
       let ct := lower uni_lower (m_get n_content_type hs) in
       let generic := Ok (hs, mkblk BGeneric [] content, feed bd content,
-                         if rt =? 4 then None (* resource: the block digest object is reused *) else None) fnd in
+                         if rt =? 4 then Some (feed pd content) (* resource: the payload is the block *) else None) fnd in
       if o_skip_parse o then generic
       else if negb (N.land rt 206 =? 0) && has_prefix s_app_http ct then
         (* newHttpBlock *)
@@ -163,7 +163,7 @@ Definition validate_digest (o : opts) (rt : N) (hs : fields) (b : rblock) (bd : 
       if (rt =? 32) || m_has n_segment_number hs2 then Ok hs2 fnd2
       else
         let pdo := match bk b with
-                   | BGeneric => if rt =? 4 then Some bd2 else None
+                   | BGeneric => if rt =? 4 then pd else None
                    | BHttpReq | BHttpResp => pd
                    | _ => None
                    end in
